@@ -29,6 +29,9 @@ type GenCfg struct {
 	// DensePolling: the clock only moves in steps below the 10ms sweep
 	// granularity and leases are short, as with many consumers polling one store.
 	DensePolling bool
+	// FusedAdvance is the chance that a forced dequeue carries an unobserved
+	// clock step (Op.Pre).
+	FusedAdvance float64
 	// Churn > 0 enables KChurn operations of Churn..Churn+300 messages (only for
 	// stores without depth limits and without delivered retention).
 	Churn   int
@@ -344,6 +347,11 @@ func (g *Gen) Next(snap vlib.Snapshot, a *Actor, now time.Time) Op {
 				g.pending[0].Forced = true
 				g.lastDequeueNS = nowNS + int64(adv)
 				return Op{Kind: KAdvance, Dur: adv}
+			}
+			if g.Cfg.FusedAdvance > 0 && r.Chance(g.Cfg.FusedAdvance) {
+				// the dequeue is the first call to meet the new instant (no listing in between)
+				op.Pre = vlib.Pick(r, []time.Duration{10 * time.Millisecond, 50 * time.Millisecond, time.Second, 2 * time.Second, 5 * time.Second, 30 * time.Second, time.Minute, 10 * time.Minute})
+				nowNS += int64(op.Pre)
 			}
 			g.fixForced(d, snap, nowNS)
 			op.Forced = true
